@@ -17,15 +17,291 @@ instance : QNum ℚ where
   lt a b := decide (a < b)
   pow a n := a ^ n
 
+private theorem qadd (a b : ℚ) : @HAdd.hAdd ℚ ℚ ℚ (@instHAdd ℚ QNum.toAdd) a b = a + b := rfl
+private theorem qsub (a b : ℚ) : @HSub.hSub ℚ ℚ ℚ (@instHSub ℚ QNum.toSub) a b = a - b := rfl
+private theorem qmul (a b : ℚ) : @HMul.hMul ℚ ℚ ℚ (@instHMul ℚ QNum.toMul) a b = a * b := rfl
+private theorem qdiv (a b : ℚ) : @HDiv.hDiv ℚ ℚ ℚ (@instHDiv ℚ QNum.toDiv) a b = a / b := rfl
+private theorem qofNat (n : Nat) : (QNum.ofNat n : ℚ) = (n : ℚ) := rfl
+private theorem qabs (a : ℚ) : QNum.abs a = |a| := rfl
+private theorem qlt (a b : ℚ) : QNum.lt a b = decide (a < b) := rfl
+private theorem qpow (a : ℚ) (n : Nat) : QNum.pow a n = a ^ n := rfl
+
+private theorem isclose_zero_iff {rel : ℚ} (hrel : 0 ≤ rel ∧ rel < 1) (a : ℚ) :
+    isclose rel a (QNum.ofNat 0) = true ↔ a = 0 := by
+  unfold isclose
+  simp only [qmul, qofNat, qabs, qlt, Nat.cast_zero, abs_zero, sub_zero]
+  have h0 : ¬ |a| < 0 := not_lt.mpr (abs_nonneg a)
+  simp only [h0, decide_false, Bool.false_eq_true, if_false, Bool.not_eq_true', decide_eq_false_iff_not, not_lt]
+  constructor
+  · intro h
+    by_contra hne
+    have hpos : 0 < |a| := abs_pos.mpr hne
+    nlinarith [hrel.1, hrel.2]
+  · rintro rfl; simp
+
+
+/-- the pairwise transfer, antisymmetric in `(i, j)` -/
+private def pairF (chi : ℚ → Nat → ℚ) (norm : Nat → ℚ) (damp : ℚ) (k : Nat) (q : List ℚ) (i j : Nat) : ℚ :=
+  (chi (q.getD j 0) j - chi (q.getD i 0) i) /
+    (if chi (q.getD i 0) i < chi (q.getD j 0) j then norm i else norm j) * damp ^ k
+
+private theorem pairF_antisymm (chi : ℚ → Nat → ℚ) (norm : Nat → ℚ) (damp : ℚ) (k : Nat) (q : List ℚ) (i j : Nat) :
+    pairF chi norm damp k q j i = - pairF chi norm damp k q i j := by
+  unfold pairF
+  rcases lt_trichotomy (chi (q.getD i 0) i) (chi (q.getD j 0) j) with h | h | h
+  · rw [if_pos h, if_neg (not_lt.mpr h.le)]; ring
+  · rw [h]; simp
+  · rw [if_pos h, if_neg (not_lt.mpr h.le)]; ring
+
+private theorem foldl_add_eq (g : Nat → ℚ) (l : List Nat) (a : ℚ) :
+    l.foldl (fun acc j => acc + g j) a = a + (l.map g).sum := by
+  induction l generalizing a with
+  | nil => simp
+  | cons x l ih => simp only [List.foldl_cons, ih, List.map_cons, List.sum_cons]; ring
+
+private theorem sum_flatMap_pairs (g : Nat → Nat → ℚ) (bonded : Nat → List Nat) (l : List Nat) :
+    (l.map (fun i => ((bonded i).map (g i)).sum)).sum =
+      ((l.flatMap (fun i => (bonded i).map (fun j => (i, j)))).map (fun e => g e.1 e.2)).sum := by
+  induction l with
+  | nil => simp
+  | cons x l ih =>
+    simp only [List.map_cons, List.sum_cons, List.flatMap_cons, List.map_append, List.sum_append, ih,
+      List.map_map]
+    rfl
+
+private theorem sum_map_neg' (g h : Nat × Nat → ℚ) (l : List (Nat × Nat)) (hh : ∀ e, h e = - g e) :
+    (l.map h).sum = - (l.map g).sum := by
+  induction l with
+  | nil => simp
+  | cons x l ih => simp only [List.map_cons, List.sum_cons, ih, hh]; ring
+
+private theorem delta_sum_zero (n : Nat) (bonded : Nat → List Nat) (g : Nat → Nat → ℚ)
+    (hg : ∀ i j, g j i = - g i j)
+    (hsym : (directedEdges n bonded).Perm ((directedEdges n bonded).map Prod.swap)) :
+    ((List.range n).map (fun i => ((bonded i).map (g i)).sum)).sum = 0 := by
+  rw [sum_flatMap_pairs]
+  change ((directedEdges n bonded).map (fun e => g e.1 e.2)).sum = 0
+  have h1 : ((directedEdges n bonded).map (fun e => g e.1 e.2)).sum =
+      (((directedEdges n bonded).map Prod.swap).map (fun e => g e.1 e.2)).sum :=
+    (hsym.map _).sum_eq
+  rw [List.map_map] at h1
+  have h2 : ((directedEdges n bonded).map ((fun e => g e.1 e.2) ∘ Prod.swap)).sum =
+      - ((directedEdges n bonded).map (fun e => g e.1 e.2)).sum :=
+    sum_map_neg' _ _ _ (fun e => by simp [hg e.1 e.2])
+  linarith
+
+private theorem range_map_getD (q : List ℚ) :
+    (List.range q.length).map (fun i => q.getD i 0) = q := by
+  apply List.ext_getElem
+  · simp
+  · intro i h1 h2
+    simp at h1
+    simp [h1]
+
+private theorem sum_map_add3 (a b c : Nat → ℚ) (l : List Nat) :
+    (l.map (fun i => a i + (b i + c i))).sum = (l.map a).sum + (l.map b).sum + (l.map c).sum := by
+  induction l with
+  | nil => simp
+  | cons x l ih => simp only [List.map_cons, List.sum_cons, ih]; ring
+
+private theorem cycles_succ (n : Nat) (chi : ℚ → Nat → ℚ) (norm : Nat → ℚ) (bonded : Nat → List Nat) (damp : ℚ)
+    (share : Nat → ℚ) (k ic : Nat) (q : List ℚ) :
+    cycles n chi norm bonded damp share (k + 1) ic q =
+      cycles n chi norm bonded damp share k (ic + 1)
+        ((List.range n).map (fun i => q.getD i 0 +
+          (((bonded i).map (pairF chi norm damp (ic + 1) q i)).sum + share i))) := by
+  rw [cycles]
+  congr 1
+  apply List.map_congr_left
+  intro i _
+  simp only [qadd, qsub, qmul, qdiv, qofNat, qlt, qpow, Nat.cast_zero, decide_eq_true_eq]
+  rw [foldl_add_eq]
+  simp only [zero_add]
+  rfl
+
+private theorem cycles_sum (n : Nat) (chi : ℚ → Nat → ℚ) (norm : Nat → ℚ) (bonded : Nat → List Nat) (damp : ℚ)
+    (share : Nat → ℚ)
+    (hsym : (directedEdges n bonded).Perm ((directedEdges n bonded).map Prod.swap))
+    (k ic : Nat) (q : List ℚ) (hq : q.length = n) :
+    (cycles n chi norm bonded damp share k ic q).sum = q.sum + k * ((List.range n).map share).sum := by
+  induction k generalizing ic q with
+  | zero => simp [cycles]
+  | succ k ih =>
+    rw [cycles_succ, ih _ _ (by simp), sum_map_add3,
+      delta_sum_zero n bonded _ (pairF_antisymm chi norm damp (ic + 1) q) hsym]
+    subst hq
+    rw [range_map_getD]
+    push_cast
+    ring
+
+
+private theorem foldl_abs_eq (formal : Nat → ℚ) (l : List Nat) (a : ℚ) :
+    l.foldl (fun acc i => if formal i = 0 then acc else acc + |formal i|) a =
+      a + (l.map (fun i => |formal i|)).sum := by
+  induction l generalizing a with
+  | nil => simp
+  | cons x l ih =>
+    simp only [List.foldl_cons, ih, List.map_cons, List.sum_cons]
+    by_cases h : formal x = 0
+    · simp [h]
+    · simp only [h, if_false]; ring
+
+private theorem abs_sum_nonneg (formal : Nat → ℚ) (l : List Nat) :
+    0 ≤ (l.map (fun i => |formal i|)).sum := by
+  induction l with
+  | nil => simp
+  | cons x l ih => simp only [List.map_cons, List.sum_cons]; have := abs_nonneg (formal x); linarith
+
+private theorem abs_sum_eq_zero (formal : Nat → ℚ) (l : List Nat)
+    (h : (l.map (fun i => |formal i|)).sum = 0) : ∀ i ∈ l, formal i = 0 := by
+  induction l with
+  | nil => simp
+  | cons x l ih =>
+    simp only [List.map_cons, List.sum_cons] at h
+    have h1 := abs_nonneg (formal x)
+    have h2 := abs_sum_nonneg formal l
+    have h3 : |formal x| = 0 := by linarith
+    have h4 : (l.map (fun i => |formal i|)).sum = 0 := by linarith
+    intro i hi
+    rcases List.mem_cons.mp hi with rfl | hi
+    · exact abs_eq_zero.mp h3
+    · exact ih h4 i hi
+
+private theorem sum_map_zero (g : Nat → ℚ) (l : List Nat) (h : ∀ i ∈ l, g i = 0) : (l.map g).sum = 0 := by
+  induction l with
+  | nil => simp
+  | cons x l ih =>
+    simp only [List.map_cons, List.sum_cons]
+    rw [h x (List.mem_cons_self ..), ih (fun i hi => h i (List.mem_cons_of_mem _ hi))]; simp
+
+private theorem sum_map_mul_left' (c : ℚ) (g : Nat → ℚ) (l : List Nat) :
+    (l.map (fun i => c * g i)).sum = c * (l.map g).sum := by
+  induction l with
+  | nil => simp
+  | cons x l ih => simp only [List.map_cons, List.sum_cons, ih]; ring
+
+private theorem sum_scale (c : ℚ) (l : List ℚ) : (l.map (fun x => c * x)).sum = c * l.sum := by
+  induction l with
+  | nil => simp
+  | cons x l ih => simp only [List.map_cons, List.sum_cons, ih]; ring
+
 theorem peoe_conserves_core (rel : ℚ) (hrel : 0 ≤ rel ∧ rel < 1) (n : Nat) (chi : ℚ → Nat → ℚ) (norm : Nat → ℚ)
     (bonded : Nat → List Nat) (damp scale : ℚ) (hs : scale ≠ 0) (nc : Nat) (hnc : 0 < nc) (formal : Nat → ℚ)
     (hsym : (directedEdges n bonded).Perm ((directedEdges n bonded).map Prod.swap)) :
     (equilibrate rel n chi norm bonded damp scale nc formal).sum = ((List.range n).map formal).sum := by
-  sorry
+  unfold equilibrate
+  simp only [isclose_zero_iff hrel, qadd, qmul, qdiv, qabs]
+  simp only [qofNat, Nat.cast_zero, Nat.cast_one]
+  rw [sum_scale, cycles_sum n chi norm bonded damp _ hsym nc 0 _ (by simp), foldl_abs_eq, zero_add]
+  have hz : ((List.range n).map (fun _ => (0 : ℚ))).sum = 0 := sum_map_zero _ _ (fun _ _ => rfl)
+  rw [hz, zero_add]
+  have hnc' : (nc : ℚ) ≠ 0 := by exact_mod_cast hnc.ne'
+  by_cases habs : ((List.range n).map (fun i => |formal i|)).sum = 0
+  · have hall := abs_sum_eq_zero formal _ habs
+    simp only [habs, if_true]
+    rw [sum_map_zero formal _ hall, sum_map_zero _ _ (fun _ _ => rfl)]
+    simp
+  · simp only [habs, if_false]
+    have he : ∀ i, (if formal i = 0 then (0 : ℚ) else formal i * (1 / scale)) = (1 / scale) * formal i := by
+      intro i
+      by_cases h : formal i = 0
+      · simp [h]
+      · simp only [h, if_false]; ring
+    simp only [he]
+    rw [sum_map_mul_left', sum_map_mul_left']
+    field_simp
+
+/-! ### symmetry of the reader's neighbour lists -/
+
+private theorem directedEdges_succ (n : Nat) (bonded : Nat → List Nat) :
+    directedEdges (n + 1) bonded = directedEdges n bonded ++ (bonded n).map (fun j => (n, j)) := by
+  simp [directedEdges, List.range_succ, List.flatMap_append]
+
+private theorem count_pair_map (i' i j : Nat) (l : List Nat) :
+    List.count (i, j) (l.map (fun j => (i', j))) = if i' = i then List.count j l else 0 := by
+  induction l with
+  | nil => simp
+  | cons a l ih =>
+    simp only [List.map_cons, List.count_cons, ih, beq_iff_eq, Prod.mk.injEq]
+    by_cases h : i' = i <;> simp [h]
+
+private theorem count_directedEdges (n : Nat) (bonded : Nat → List Nat) (i j : Nat) :
+    List.count (i, j) (directedEdges n bonded) = if i < n then List.count j (bonded i) else 0 := by
+  induction n with
+  | zero => simp [directedEdges]
+  | succ n ih =>
+    rw [directedEdges_succ, List.count_append, ih, count_pair_map]
+    by_cases h1 : i < n
+    · have : n ≠ i := by omega
+      have h2 : i < n + 1 := by omega
+      simp [h1, this, h2]
+    · by_cases h2 : n = i
+      · subst h2; simp
+      · have : ¬ i < n + 1 := by omega
+        simp [h1, h2, this]
+
+private theorem count_bondedOf (bs : Bonds) (i j : Nat) :
+    List.count j (bondedOf bs i) =
+      List.countP (fun b => decide (b.1 = i ∧ b.2.1 = j)) bs + List.countP (fun b => decide (b.2.1 = i ∧ b.1 = j)) bs := by
+  induction bs with
+  | nil => simp [bondedOf]
+  | cons b bs ih =>
+    have : bondedOf (b :: bs) i = ((if b.1 = i then [b.2.1] else []) ++ (if b.2.1 = i then [b.1] else [])) ++ bondedOf bs i := by
+      simp [bondedOf]
+    rw [this, List.count_append, List.count_append, ih, List.countP_cons, List.countP_cons]
+    generalize List.countP (fun b : Nat × Nat × BondType => decide (b.1 = i ∧ b.2.1 = j)) bs = A
+    generalize List.countP (fun b : Nat × Nat × BondType => decide (b.2.1 = i ∧ b.1 = j)) bs = B
+    obtain ⟨x, y, t⟩ := b
+    simp only [decide_eq_true_eq]
+    have e1 : List.count j (if x = i then [y] else []) = if (x = i ∧ y = j) then 1 else 0 := by
+      by_cases h1 : x = i <;> by_cases h3 : y = j <;> simp [h1, h3]
+    have e2 : List.count j (if y = i then [x] else []) = if (y = i ∧ x = j) then 1 else 0 := by
+      by_cases h1 : y = i <;> by_cases h3 : x = j <;> simp [h1, h3]
+    rw [e1, e2]
+    omega
+
+private theorem count_swap (l : List (Nat × Nat)) (i j : Nat) :
+    List.count (i, j) (l.map Prod.swap) = List.count (j, i) l := by
+  induction l with
+  | nil => simp
+  | cons a l ih =>
+    obtain ⟨x, y⟩ := a
+    simp only [List.map_cons, List.count_cons, ih, Prod.swap_prod_mk, beq_iff_eq, Prod.mk.injEq]
+    by_cases h1 : x = j <;> by_cases h2 : y = i <;> simp [h1, h2]
 
 theorem bonded_symmetric_core (n : Nat) (bs : Bonds) (h : ∀ b ∈ bs, b.1 < n ∧ b.2.1 < n) :
     (directedEdges n (bondedOf bs)).Perm ((directedEdges n (bondedOf bs)).map Prod.swap) := by
-  sorry
+  rw [List.perm_iff_count]
+  rintro ⟨i, j⟩
+  rw [count_swap, count_directedEdges, count_directedEdges, count_bondedOf, count_bondedOf]
+  have key : ∀ i j : Nat, ¬ i < n →
+      List.countP (fun b : Nat × Nat × BondType => decide (b.1 = i ∧ b.2.1 = j)) bs = 0 ∧
+      List.countP (fun b : Nat × Nat × BondType => decide (b.2.1 = i ∧ b.1 = j)) bs = 0 ∧
+      List.countP (fun b : Nat × Nat × BondType => decide (b.1 = j ∧ b.2.1 = i)) bs = 0 ∧
+      List.countP (fun b : Nat × Nat × BondType => decide (b.2.1 = j ∧ b.1 = i)) bs = 0 := by
+    intro i j hi
+    refine ⟨?_, ?_, ?_, ?_⟩ <;>
+    · rw [List.countP_eq_zero]
+      intro b hb
+      have := h b hb
+      simp only [decide_eq_true_eq]
+      omega
+  by_cases hi : i < n <;> by_cases hj : j < n
+  · simp only [hi, hj, if_true]
+    have c1 : List.countP (fun b : Nat × Nat × BondType => decide (b.2.1 = j ∧ b.1 = i)) bs =
+        List.countP (fun b : Nat × Nat × BondType => decide (b.1 = i ∧ b.2.1 = j)) bs := by
+      simp only [and_comm]
+    have c2 : List.countP (fun b : Nat × Nat × BondType => decide (b.1 = j ∧ b.2.1 = i)) bs =
+        List.countP (fun b : Nat × Nat × BondType => decide (b.2.1 = i ∧ b.1 = j)) bs := by
+      simp only [and_comm]
+    omega
+  · obtain ⟨k1, k2, k3, k4⟩ := key j i hj
+    simp only [hi, hj, if_true, if_false, k3, k4]
+  · obtain ⟨k1, k2, k3, k4⟩ := key i j hi
+    simp only [hi, hj, if_true, if_false, k3, k4]
+  · simp only [hi, hj, if_false]
+
+/-! ### radius lookup and transfer -/
 
 theorem radius_lookup_order_core (p s : List (String × Nat)) (ty el : String) :
     assignRadius p s ty el =
@@ -36,17 +312,67 @@ theorem radius_lookup_order_core (p s : List (String × Nat)) (ty el : String) :
          | none => match s.lookup ty with
            | some r => some r
            | none => s.lookup el) := by
-  sorry
+  unfold assignRadius
+  cases h1 : p.lookup ty <;> cases h2 : p.lookup el <;> cases h3 : s.lookup ty <;> simp [h1, h2, h3]
+
+private theorem inner_fold (lig : List Str) (l : List HAtom) (h m : List Nat) :
+    (l.foldl (fun (acc : List Nat × List Nat) a =>
+      if lig.contains a.name then (acc.1 ++ [a.id], acc.2) else (acc.1, acc.2 ++ [a.id])) (h, m)).1 =
+      h ++ (l.filter (fun a => lig.contains a.name)).map (·.id) := by
+  induction l generalizing h m with
+  | nil => simp
+  | cons a l ih =>
+    simp only [List.foldl_cons]
+    by_cases hc : lig.contains a.name = true
+    · rw [if_pos hc, ih, List.filter_cons, if_pos hc]
+      simp only [List.map_cons, List.append_assoc, List.cons_append, List.nil_append]
+    · rw [if_neg hc, ih, List.filter_cons, if_neg hc]
+
+private theorem outer_fold (lig : List Str) (rs : List (Bool × List HAtom)) (acc : List Nat × List Nat) :
+    (rs.foldl (fun (acc : List Nat × List Nat) (wr : Bool × List HAtom) =>
+    if wr.1 then acc else
+    let scanned := wr.2.takeWhile (·.isHet)
+    scanned.foldl (fun (acc : List Nat × List Nat) a =>
+      if lig.contains a.name then (acc.1 ++ [a.id], acc.2) else (acc.1, acc.2 ++ [a.id])) acc) acc).1 =
+    acc.1 ++ (rs.filter (fun wr => !wr.1)).flatMap (fun wr => ((wr.2.takeWhile (·.isHet)).filter (fun a => lig.contains a.name)).map (·.id)) := by
+  induction rs generalizing acc with
+  | nil => simp
+  | cons wr rs ih =>
+    simp only [List.foldl_cons]
+    rw [ih]
+    obtain ⟨w, r⟩ := wr
+    cases w
+    · obtain ⟨h, m⟩ := acc
+      simp only [Bool.false_eq_true, if_false, inner_fold, List.filter_cons, Bool.not_false, if_true,
+        List.flatMap_cons, List.append_assoc]
+    · simp only [if_true, List.filter_cons, Bool.not_true, Bool.false_eq_true, if_false]
 
 theorem transfer_spec_core (lig : List Str) (rs : List (Bool × List HAtom)) :
     (ligandTransfer lig rs).1 =
       (rs.filter (fun wr => !wr.1)).flatMap (fun wr => ((wr.2.takeWhile (·.isHet)).filter (fun a => lig.contains a.name)).map (·.id)) := by
-  sorry
+  unfold ligandTransfer
+  rw [outer_fold]; simp
+
+private theorem flatMap_nil_of (lig : List Str) (l : List (Bool × List HAtom))
+    (h : ∀ wr ∈ l, wr.1 = true ∨ ∀ a ∈ wr.2.takeWhile (·.isHet), lig.contains a.name = false) :
+    (l.filter (fun wr => !wr.1)).flatMap (fun wr => ((wr.2.takeWhile (·.isHet)).filter (fun a => lig.contains a.name)).map (·.id)) = [] := by
+  rw [List.flatMap_eq_nil_iff]
+  intro wr hwr
+  rw [List.mem_filter] at hwr
+  rcases h wr hwr.1 with h1 | h1
+  · simp [h1] at hwr
+  · rw [List.map_eq_nil_iff, List.filter_eq_nil_iff]
+    intro a ha
+    rw [h1 a ha]; simp
 
 theorem ligand_only_partial_core (lig : List Str) (pre post : List (Bool × List HAtom)) (ligand : List HAtom)
     (hpre : ∀ wr ∈ pre ++ post, wr.1 = true ∨ ∀ a ∈ wr.2.takeWhile (·.isHet), lig.contains a.name = false) :
     (ligandTransfer lig (pre ++ [(false, ligand)] ++ post)).1 =
       ((ligand.takeWhile (·.isHet)).filter (fun a => lig.contains a.name)).map (·.id) := by
-  sorry
+  rw [transfer_spec_core]
+  have h1 := flatMap_nil_of lig pre (fun wr h => hpre wr (List.mem_append_left _ h))
+  have h2 := flatMap_nil_of lig post (fun wr h => hpre wr (List.mem_append_right _ h))
+  simp only [List.filter_append, List.flatMap_append, h1, h2]
+  simp
 
 end P2P.Proofs.Peoe
